@@ -561,6 +561,12 @@ def typeUpper (ty : PyVal) : D (Option Str) :=
 def strandOrPlus (v : PyVal) : D Strand :=
   if truthy v then lookupStrand v else pure Strand.plus
 
+/-- SWITCH for F-C08f.  `false` = the code as it is: `parent_dict["seq_id"] = parent_dict["sequence_name"]` raises
+    KeyError for a whole-chromosome parent exported without sequence id.  `true` = after the one-line repair
+    (`parent_dict.get("sequence_name")`).  Flip it when the repair lands (then delete `f_c08f_witness` in
+    Props/C08.lean and the finding entry F-C08f). -/
+def chromIdRepaired : Bool := false
+
 /-- the key survived the `v is not None` filter -/
 def truthyOrPresent : PyVal → Bool
   | .none => false
@@ -585,7 +591,7 @@ def parentFromDict (v : PyVal) : D ParentDesc :=
         pure (.chunk sq al name s e st)
       else
         -- `parent_dict["seq_id"] = parent_dict["sequence_name"]`: KeyError when the name was null (F-C08f)
-        if !truthyOrPresent (getOpt .sequence_name v) then throw .keyError
+        if !chromIdRepaired && !truthyOrPresent (getOpt .sequence_name v) then throw .keyError
         let id ← asOptStr (getOpt .sequence_name v)
         pure (.chrom sq al id)
     else if truthy ty || truthy (getOpt .sequence_name v) then
